@@ -187,6 +187,9 @@ func svDec(v any) (decimal.Decimal, bool) {
 // monC02: the property on the implementation's output
 func monC02(op J, res any) (viol []Violation, nontrivial bool) {
 	name := jStr(op["op"])
+	if name != "agg.median" && name != "agg.quote" {
+		return
+	}
 	vals := jArr(op["values"])
 	hset := map[int]bool{}
 	for _, i := range jArr(op["honest"]) {
@@ -369,6 +372,9 @@ func permute(a []any, f func([]any)) {
 // monC15: result occurs >= f+1 times (byte-identical), is of the most common type, and the same
 // result is obtained for a sorted copy of the list (order independence, implementation vs itself).
 func monC15(op J, res any) (viol []Violation, nontrivial bool) {
+	if jStr(op["op"]) != "agg.mode" {
+		return
+	}
 	vals := jArr(op["values"])
 	f := jInt(op["f"])
 	r := jObj(res)
